@@ -422,6 +422,39 @@ Proof. exact jacobian_seam_invariant. Qed.
 Example C10_seam_example : wrap_ra_diff (359 - 1) = -2 /\ wrap_ra_diff (1 - 359) = 2.
 Proof. exact seam_example. Qed.
 
+(* Round 6 -- decisions, thresholds and defaults are translated from the source as well: the longitude fold of image2sph
+   (comparison operators, thresholds, steps; scalar and array code agree), one pass of wrap_ra_diff's loops, the branch
+   conditions r > 0 and latitude > 0, the rule "distortion model iff either axis has coefficients", the default PVi_1 = 1,
+   GetPole's zenithal branch and the constructor's default angles (which select that branch). *)
+Theorem C10_decisions_are_source :
+  (forall lon, fold360 lon = src_fold360 lon)
+  /\ (forall d, wrap_ra_diff d = src_wrap_once d)
+  /\ (forall w x y, image2sph w x y =
+        let r := src_image2sph_r x y in
+        let ll := Rotate w (src_image2sph_lon atan2 x y * src_r2d) (src_image2sph_latitude r * src_r2d) true in
+        (src_fold360 (fst ll), snd ll))
+  /\ (forall w longitude latitude, sph2image w longitude latitude =
+        let ll := Rotate w longitude latitude false in src_sph2image_sel (fst ll * src_d2r) (snd ll * src_d2r))
+  /\ (forall h,
+        (h_proj h <> PSip ->
+           (d_name (extract_distortion h) = DNone <->
+            src_has_distortion (pv_count (fun k => assoc_nat k (h_pv1 h))) (pv_count (fun k => assoc_nat k (h_pv2 h))) = false))
+        /\ (h_proj h = PSip ->
+           (d_name (extract_distortion h) = DNone <->
+            src_has_distortion (sip_count (h_a_order h) (h_sipa h)) (sip_count (h_b_order h) (h_sipb h)) = false)))
+  /\ (forall table, pv_init table =
+        let z := zeros (S scamp_max_order) (S scamp_max_order) in
+        match assoc_nat src_pv_default_key table with Some (i, j) => mset z i j src_pv_default_value | None => z end)
+  /\ (forall h, w_rot (mk_wcs h) =
+        rotation_matrix (fst (src_getpole_zenithal (h_crval1 h) (h_crval2 h)))
+                        (snd (src_getpole_zenithal (h_crval1 h) (h_crval2 h))) (h_longpole h))
+  /\ (src_default_theta0 = src_zenithal_theta0 /\ src_default_longpole = 180 /\ src_default_latpole = 90).
+Proof.
+  split; [exact fold360_is_source|]. split; [exact wrap_is_source|]. split; [exact image2sph_decisions_are_source|].
+  split; [exact sph2image_decisions_are_source|]. split; [exact has_distortion_is_source|].
+  split; [exact pv_default_is_source|]. split; [exact getpole_is_source|exact default_angles_are_source].
+Qed.
+
 (* Non-vacuity: concrete distorted headers meet the hypotheses used above. *)
 Definition ex_header (p : proj) : header :=
   {| h_proj := p; h_crpix1 := 100; h_crpix2 := 200; h_crval1 := 359; h_crval2 := 89;
